@@ -247,9 +247,9 @@ def r1_by_evaluation(ctx):
             def kern(ev, call):
                 log["args"] = [ev.ex(a) for a in call.args]
                 return None
-            vec = TenSym({}, funcs=ucfuncs).run_fn(vprop["unitcell_vectors"], self=me)     # what the trajectory reports as its cell vectors, per frame
             ev = TenSym({}, funcs=ucfuncs, models={kernel: kern, "deepcopy": lambda e_, c_: Obj(tag="copy"), "copy.deepcopy": lambda e_, c_: Obj(tag="copy")})
             try:
+                vec = TenSym({}, funcs=ucfuncs).run_fn(vprop["unitcell_vectors"], self=me)     # what the trajectory reports as its cell vectors, per frame
                 got = ev.run_fn(fn, self=me, inplace=inplace)
                 pr = []
                 args = log.get("args")
